@@ -227,7 +227,7 @@ static SpanObs spanEval(SpanCase& k, State& s, bool velocity) {
 }
 
 // Full oracle set on one realized, converged state. Returns number of obstacles in contact.
-static void spanOracles(Ctx& c, SpanCase& k, const State& s, const SpanObs& o, const std::string& A, const Json& desc) {
+static bool spanOracles(Ctx& c, SpanCase& k, const State& s, const SpanObs& o, const std::string& A, const Json& desc) {
     const CableSpan& cable = k.cable; const Scene& sc = k.sc; const Model& m = k.m;
     auto W = [&](const char* what, int el = -1) {
         return [&, what, el]() { Json j = desc; j.set("what", what).set("element", el).set("pattern", o.pattern).set("L", o.L).set("smoothness", o.smooth).set("q", jV(s.getQ())); return j; };
@@ -235,6 +235,33 @@ static void spanOracles(Ctx& c, SpanCase& k, const State& s, const SpanObs& o, c
     const int n = (int)sc.el.size();
     const Vec3 O = bodyX(m, s, sc.bodyO) * sc.O_B, T = bodyX(m, s, sc.bodyT) * sc.T_B;
     double scale = (T - O).norm() + sc.scale;
+    // ---- attribute first: a contact frame whose tangent points against the adjacent straight segment
+    // (a cusp) makes the normal/binormal path errors vanish as well; everything downstream (forces,
+    // power, length rate) is then a consequence and is not keyed separately.
+    {
+        Vec3 cur0 = O; bool reversed = false; int where = -1;
+        for (int i = 0; i < n && !reversed; ++i) {
+            const Elem& E = sc.el[i];
+            if (E.via) { cur0 = cable.calcViaPointLocation(s, CableSpanViaPointIndex(k.viaOfEl[i])); continue; }
+            if (!o.contact[k.obsOfEl[i]]) continue;
+            CableSpanObstacleIndex ox(k.obsOfEl[i]);
+            Transform FP = cable.calcCurveSegmentInitialFrenetFrame(s, ox), FQ = cable.calcCurveSegmentFinalFrenetFrame(s, ox);
+            if (!(finite3(FP.p()) && finite3(FQ.p()))) continue;
+            if (~(FP.p() - cur0) * Vec3(FP.x()) < 0) { reversed = true; where = i; }
+            // next point after Q
+            Vec3 nxt = T;
+            for (int j = i + 1; j < n; ++j) {
+                if (sc.el[j].via) { nxt = cable.calcViaPointLocation(s, CableSpanViaPointIndex(k.viaOfEl[j])); break; }
+                if (o.contact[k.obsOfEl[j]]) { nxt = cable.calcCurveSegmentInitialFrenetFrame(s, CableSpanObstacleIndex(k.obsOfEl[j])).p(); break; }
+            }
+            if (~(nxt - FQ.p()) * Vec3(FQ.x()) < 0) { reversed = true; where = i; }
+            cur0 = FQ.p();
+        }
+        if (reversed) {
+            c.viol("converged-with-reversed-tangent:" + A, W("solver reports convergence (smoothness <= tolerance) although a straight segment leaves/enters a curve segment against its tangent (180 degree kink)", where)());
+            return false;
+        }
+    }
     // ---- path points in order, with arcs
     struct Pt { Vec3 p; };
     std::vector<Vec3> chain; chain.push_back(O);     // O, [P,Q]..., via..., T  (straight segments are chain[2i] -> chain[2i+1])
@@ -368,7 +395,7 @@ static void spanOracles(Ctx& c, SpanCase& k, const State& s, const SpanObs& o, c
                 double worst = 0;
                 for (int j = 0; j <= 64; ++j) { Vec3 p = segA[si] + (segB[si] - segA[si]) * (j / 64.0); worst = std::max(worst, -E.S.dist(~X_GS * p)); }
                 if (E.S.kind == K_Torus) { if (worst > tolPen) c.obs("lifted-torus-crossed-by-straight-segment"); }
-                else c.check("lifted-obstacle-penetration:" + A + ":" + KT, worst, tolPen, W("obstacle reported as not in contact is crossed by the straight segment passing it", i));
+                else c.check("lifted-obstacle-penetrated:" + A, worst, tolPen, W("obstacle reported as not in contact is crossed by the straight segment passing it", i));
             }
         }
     }
@@ -430,6 +457,7 @@ static void spanOracles(Ctx& c, SpanCase& k, const State& s, const SpanObs& o, c
         c.check("power-getter-vs-applied-forces:" + A, std::fabs(P - Plib), 1e-12 * Tn * (vscale + 1e-300) * (nContact + sc.nVia + 2), W("calcCablePower != sum F.V of applyBodyForces"));
         c.check("power-is-minus-tension-times-lengthdot:" + A, std::fabs(P + Tn * o.Ldot), (misalign + 1e-11) * Tn * (vscale + 1e-300) * (nContact + sc.nVia + 2), W("power of the applied forces != -tension * calcLengthDot"));
     }
+    return true;
 }
 
 // Continuation protocol of auto-update discrete variables (the cables' warm start), as performed by
@@ -461,6 +489,33 @@ static void spanLengthDotFD(Ctx& c, SpanCase& k, const State& s, const SpanObs& 
         L[j] = oj.L;
     }
     double dh = d5(L[0], L[1], L[5], L[6], h), dh2 = d5(L[1], L[2], L[4], L[5], h / 2);
+    {
+        // The stencil states are continuations of the converged path at small distance; if coming back to
+        // t=0 does not reproduce the judged state's length, the solver slid to another local solution
+        // (the judged path is a stationary but unstable one): the stencil measures a different branch.
+        sj.updQ() = s.getQ(); SpanObs ob = spanEval(k, sj, false);
+        double sc0 = k.sc.scale + std::fabs(o.L);
+        if (!ob.ok || !ob.converged || ob.pattern != o.pattern || std::fabs(ob.L - o.L) > 1e-7 * sc0 + 100 * k.tolSmooth * k.tolSmooth * sc0 + 1000 * k.acc) {
+            c.skip("lengthdot-fd:stencil-on-another-solution-branch"); c.obs("unstable-stationary-path-seen");
+            if (c.args.verbose) fprintf(stderr, "lengthDot FD: branch switch, L0=%.12g back=%.12g\n", o.L, ob.L);
+            return;
+        }
+    }
+    if (c.args.verbose) {
+        fprintf(stderr, "lengthDot FD: h=%g L0=%.12g Ldot=%.9g fd=%.9g fd2=%.9g pattern=%s\n", h, o.L, o.Ldot, dh, dh2, o.pattern.c_str());
+        for (int j = 0; j < 7; ++j) fprintf(stderr, "   t=%+.1fh  L-L0=%+.9e\n", tt[j], L[j] - o.L);
+        // the same state solved from scratch in the scratch copy
+        sj.updQ() = s.getQ(); SpanObs o0 = spanEval(k, sj, true);
+        fprintf(stderr, "   re-solve at t=0 in the scratch copy: L-L0=%+.9e Ldot=%.9g pattern=%s smooth=%g iters=%d\n", o0.L - o.L, o0.Ldot, o0.pattern.c_str(), o0.smooth, o0.iters);
+        for (CableSpanObstacleIndex ix(0); ix < k.cable.getNumObstacles(); ++ix) {
+            double a1 = k.cable.calcCurveSegmentArcLength(s, ix), a2 = k.cable.calcCurveSegmentArcLength(sj, ix);
+            Vec3 p1 = k.cable.calcCurveSegmentInitialFrenetFrame(s, ix).p(), p2 = k.cable.calcCurveSegmentInitialFrenetFrame(sj, ix).p();
+            fprintf(stderr, "   obstacle %d: arc %.9g vs %.9g   |P1-P2|=%g\n", (int)ix, a1, a2, (p1 - p2).norm());
+        }
+        fprintf(stderr, "   s: smooth=%g iters=%d Ldot=%.9g\n", k.cable.getSmoothness(s), k.cable.getNumSolverIterations(s), k.cable.calcLengthDot(s));
+        State s3 = s; s3.invalidateAllCacheAtOrAbove(Stage::Position); SpanObs o3 = spanEval(k, s3, true);
+        fprintf(stderr, "   copy of s, Position cache invalidated, re-realized: L-L0=%+.9e Ldot=%.9g iters=%d\n", o3.L - o.L, o3.Ldot, o3.iters);
+    }
     // error model: solver noise in L (second order in the path error, plus geodesic accuracy) divided by h
     double scale = k.sc.scale + std::fabs(o.L);
     double noise = (k.tolSmooth * k.tolSmooth * scale * 10 + 100 * k.acc + 256 * EPS * scale) / (h / 2);
@@ -489,7 +544,7 @@ static void runSpan(Ctx& c, long idx, Rng& r) {
     CoutCapture cap;
     const int nObs = (int)(idx % 4), nVia = (int)((idx / 4) % 3), alg = (int)((idx / 12) % 2), firstKind = (int)((idx / 24) % 4), tolClass = (int)((idx / 96) % 3);
     SpanCase k; k.alg = alg;
-    static const double tolS[] = {1e-8, 1e-6, 1e-10}, accS[] = {1e-11, 1e-9, 1e-12};
+    static const double tolS[] = {1e-8, 1e-6, 1e-9}, accS[] = {1e-10, 1e-9, 1e-11};
     k.tolSmooth = tolS[tolClass]; k.acc = accS[tolClass];
     const std::string A = std::string("CableSpan/") + (alg == 0 ? "MinimumLength" : "Scholz2015");
     GenOpts go; go.minBodies = 2; go.maxBodies = 5; go.types = cableMobTypes(); go.forceCycle = false; go.pLoneParticle = 0;
@@ -539,10 +594,12 @@ static void runSpan(Ctx& c, long idx, Rng& r) {
         SpanObs o = spanEval(k, s, true);
         if (st == 0 && o.ok && o.converged) {
             // make the converged path the warm start of this state and of its copies (Integrator::initialize() protocol)
-            const double L1 = o.L;
+            const double L1 = o.L; const std::string pat1 = o.pattern;
             try { firstAutoUpdate(k.m.sys, s); o = spanEval(k, s, true); }
             catch (const std::exception& ex) { o.ok = false; o.why = ex.what(); }
-            if (o.ok && o.converged)
+            if (o.ok && o.converged && o.pattern != pat1)
+                c.viol("contact-set-changes-on-re-solve:" + A, [&]() { Json j = desc; j.set("what", "re-solving the same configuration from its own converged path changes the set of obstacles in contact: the first solution was accepted with a wrong contact status").set("pattern_first", pat1).set("pattern_again", o.pattern).set("L_first", L1).set("L_again", o.L); return j; }());
+            else if (o.ok && o.converged)
                 c.check("length-reproducible-after-auto-update:" + A, std::fabs(o.L - L1), 10 * k.tolSmooth * k.tolSmooth * (sc.scale + std::fabs(L1)) + 100 * k.acc + 1e-11 * (sc.scale + std::fabs(L1)),
                         [&]() { Json j = desc; j.set("what", "re-solving the same configuration from its own converged path changed the length").set("L_first", L1).set("L_again", o.L); return j; });
         }
@@ -559,9 +616,10 @@ static void runSpan(Ctx& c, long idx, Rng& r) {
         std::string key = A + "/" + sc.kinds + "/v" + std::to_string(sc.nVia) + "/" + (o.pattern.empty() ? "-" : o.pattern) + (st == 0 ? "/init" : "/cont");
         c.cover(key);
         c.setPhase("CableSpan oracles state " + std::to_string(st));
-        spanOracles(c, k, s, o, A, desc);
+        Json descSt = desc; descSt.set("state", st).set("u", jV(s.getU()));
+        bool sane = spanOracles(c, k, s, o, A, descSt);
         c.setPhase("CableSpan lengthDot FD state " + std::to_string(st));
-        if (c.args.getInt("nofd", 0) == 0 && (st == 0 || st == nStates - 1)) spanLengthDotFD(c, k, s, o, A, desc);
+        if (sane && c.args.getInt("nofd", 0) == 0 && st == (idx % 3 == 0 ? 0 : nStates - 1)) spanLengthDotFD(c, k, s, o, A, desc);
         cap.drop();
         if (c.wantSample() && st == 0) c.sample(Json::obj().set("kinds", sc.kinds).set("nVia", sc.nVia).set("alg", alg).set("pattern", o.pattern).set("L", o.L).set("Ldot", o.Ldot).set("smoothness", o.smooth).set("iters", o.iters));
     }
@@ -612,23 +670,56 @@ static void runPath(Ctx& c, long idx, Rng& r) {
         attachScene(k.sc, k.m, s, r, false);
     }
     Scene& sc = k.sc;
-    // CablePath treats every enabled surface as active: only wrapping layouts are legal here
-    k.sc = sc;
     Json desc = Json::obj().set("model", k.m.desc.toJson()).set("scene", sc.toJson()).set("q0", jV(q0));
+    // ---- phase A: the same cable as a CableSpan on an identical model. Its converged path provides
+    // (a) contact point hints inside the old Newton solver's small basin of attraction, (b) which
+    // obstacles the cable touches (CablePath treats every enabled surface as wrapped: the others are
+    // disabled), (c) an independently computed length and length rate to compare with.
+    SpanCase ref; ref.alg = 0; ref.tolSmooth = 1e-9; ref.acc = 1e-10;
+    ref.m.build(d); ref.sc = sc;
+    ref.cables.reset(new CableSubsystem(ref.m.sys));
+    ref.cable = CableSpan(*ref.cables, bodyIx(ref.m, sc.bodyO), sc.O_B, bodyIx(ref.m, sc.bodyT), sc.T_B);
+    ref.obsOfEl.assign(sc.el.size(), -1); ref.viaOfEl.assign(sc.el.size(), -1);
+    for (size_t i = 0; i < sc.el.size(); ++i) {
+        Elem& E = sc.el[i];
+        if (E.via) ref.viaOfEl[i] = ref.cable.addViaPoint(bodyIx(ref.m, E.body), E.X_BS.p());
+        else ref.obsOfEl[i] = ref.cable.addObstacle(bodyIx(ref.m, E.body), E.X_BS, E.geo, E.hint_S);
+    }
+    ref.cable.setSmoothnessTolerance(ref.tolSmooth); ref.cable.setCurveSegmentAccuracy(ref.acc);
+    State sr = ref.m.init(); sr.updQ() = q0; sr.updU() = u0;
+    c.setPhase("CablePath: reference CableSpan");
+    SpanObs oref = spanEval(ref, sr, true);
+    if (!oref.ok) { c.skip(isPreconditionMsg(oref.why) ? "path-point-inside-obstacle" : "reference-CableSpan-exception"); return; }
+    if (!oref.converged) { c.skip("reference-CableSpan-not-converged"); return; }
+    std::vector<Vec3> hintP(sc.el.size(), Vec3(0)), hintQ(sc.el.size(), Vec3(0)); std::vector<int> wrapped(sc.el.size(), 0);
+    std::string kindsActive;
+    for (size_t i = 0; i < sc.el.size(); ++i) {
+        const Elem& E = sc.el[i]; if (E.via) continue;
+        wrapped[i] = oref.contact[ref.obsOfEl[i]];
+        if (!wrapped[i]) continue;
+        CableSpanObstacleIndex ox(ref.obsOfEl[i]);
+        Transform X_GS = bodyX(ref.m, sr, E.body) * E.X_BS;
+        hintP[i] = ~X_GS * ref.cable.calcCurveSegmentInitialFrenetFrame(sr, ox).p();
+        hintQ[i] = ~X_GS * ref.cable.calcCurveSegmentFinalFrenetFrame(sr, ox).p();
+        if (!kindsActive.empty()) kindsActive += "+";
+        kindsActive += kindShort(E.S.kind);
+    }
+    if (kindsActive.empty()) kindsActive = "none";
+    // ---- phase B: the CablePath
     c.setPhase("construct CablePath");
     auto mob = [&](int b) -> const MobilizedBody& { return b < 0 ? (const MobilizedBody&)k.m.matter.getGround() : (const MobilizedBody&)k.m.bodies[b]; };
     k.tracker.reset(new CableTrackerSubsystem(k.m.sys));
     k.path.reset(new CablePath(*k.tracker, mob(sc.bodyO), sc.O_B, mob(sc.bodyT), sc.T_B));
-    for (auto& E : sc.el) {
+    for (size_t i = 0; i < sc.el.size(); ++i) {
+        Elem& E = sc.el[i];
         if (E.via) { CableObstacle::ViaPoint v(*k.path, mob(E.body), E.X_BS.p()); (void)v; }
         else {
             CableObstacle::Surface sf(*k.path, mob(E.body), E.X_BS, *E.geo);
-            Vec3 hs = E.S.project(E.hint_S);
-            // start / end hints: a little before / after the hint along the line direction
-            Vec3 dS = ~E.X_GS.R() * (sc.T_G - sc.O_G); dS /= dS.norm();
-            Vec3 hp = E.S.project(hs - dS * (0.3 * E.S.charR)), hq = E.S.project(hs + dS * (0.3 * E.S.charR));
-            sf.setContactPointHints(hp, hq);
-            sf.setNearPoint(hs);
+            if (!wrapped[i]) { sf.setDisabledByDefault(true); continue; }
+            // hints near (not at) the reference solution
+            double pert = 0.02 * E.S.charR;
+            sf.setContactPointHints(E.S.project(hintP[i] + randVec3(r, pert)), E.S.project(hintQ[i] + randVec3(r, pert)));
+            sf.setNearPoint(E.S.project(E.hint_S));
         }
     }
     k.k = r.uni(10, 100); k.cdis = r.uni(0.0, 0.3);
@@ -645,6 +736,13 @@ static void runPath(Ctx& c, long idx, Rng& r) {
             Vector q = s.getQ(); for (int i = 0; i < q.size(); ++i) q[i] += amp * r.sym(1.0);
             s.updQ() = q;
             for (int i = 0; i < s.getNU(); ++i) s.updU()[i] = r.sym(1.0);
+            // the reference CableSpan follows by continuation as well
+            bool refOk = true;
+            try { firstAutoUpdate(ref.m.sys, sr); sr.autoUpdateDiscreteVariables(); } catch (const std::exception&) { refOk = false; }
+            sr.updQ() = s.getQ(); sr.updU() = s.getU();
+            std::string pat0 = oref.pattern;
+            if (refOk) oref = spanEval(ref, sr, true);
+            if (!refOk || !oref.ok || !oref.converged || oref.pattern != pat0) { oref.ok = false; c.obs("reference-CableSpan-lost-in-continuation"); }
         }
         c.setPhase("CablePath realize state " + std::to_string(st));
         PathObs o = pathEval(k, s, true);
@@ -655,14 +753,18 @@ static void runPath(Ctx& c, long idx, Rng& r) {
         cap.drop();
         if (!o.ok) { c.obs("CablePath-exception"); c.viol("exception:" + A + ":" + normMsg(o.why).substr(0, 80), Json::obj().set("case", desc).set("what", firstLine(o.why, 500)).set("state", st)); break; }
         c.obs("states-solved");
-        if (!o.converged) { c.obs(st == 0 ? "not-converged:initial" : "not-converged:continuation"); c.skip("solver-not-converged"); break; }
+        if (!o.converged) {
+            c.obs(st == 0 ? "not-converged:initial" : "not-converged:continuation"); c.skip("solver-not-converged");
+            if (c.args.verbose) fprintf(stderr, "CablePath not converged: case %ld state %d kinds %s nVia %d err %g L %g\n", idx, st, sc.kinds.c_str(), sc.nVia, o.err, o.L);
+            break;
+        }
         auto W = [&](const char* what) { return [&, what]() { Json j = desc; j.set("what", what).set("L", o.L).set("Ldot", o.Ldot).set("patherr", o.err).set("state", st).set("q", jV(s.getQ())); return j; }; };
         const CablePath::Impl& pi = k.path->getImpl();
         const PathInstanceInfo& ii = pi.getInstanceInfo(s);
         const PathPosEntry& ppe = pi.getPosEntry(s);
         const int no = pi.getNumObstacles();
         // walk the obstacles
-        Vec3 prevQ(NaN); double sumStraight = 0, sumArc = 0; bool bad = false; int nAct = 0; double backwards = 0;
+        Vec3 prevQ(NaN); double sumStraight = 0, sumArc = 0; bool bad = false; int nAct = 0; double backwards = 0, branchDiff = 0;
         const Vec3 O = bodyX(k.m, s, sc.bodyO) * sc.O_B, T = bodyX(k.m, s, sc.bodyT) * sc.T_B;
         double scale = (T - O).norm() + sc.scale;
         int elIx = 0;
@@ -692,6 +794,12 @@ static void runPath(Ctx& c, long idx, Rng& r) {
                     c.check("tangent-continuity-touchdown:" + A + ":" + KT, ang, 1e-6, W("incoming straight segment not parallel to the geodesic tangent at P although patherr <= tolerance"));
                     if (~ein * Vec3(g.getTangentP()) < 0) backwards += 1;
                     c.require("geodesic-length-positive:" + A + ":" + KT, gl > 0, W("non-positive geodesic length on an active surface"));
+                    if (oref.ok) {
+                        CableSpanObstacleIndex rx(ref.obsOfEl[elIx]);
+                        Transform XR = bodyX(ref.m, sr, E.body) * E.X_BS;
+                        Vec3 Pr = ~XR * ref.cable.calcCurveSegmentInitialFrenetFrame(sr, rx).p(), Qr = ~XR * ref.cable.calcCurveSegmentFinalFrenetFrame(sr, rx).p();
+                        branchDiff = std::max(branchDiff, ((Pr - PS).norm() + (Qr - QS).norm()) / E.S.size);
+                    }
                 }
                 ++elIx;
             }
@@ -701,6 +809,15 @@ static void runPath(Ctx& c, long idx, Rng& r) {
         double Lscale = sumStraight + sumArc + scale;
         c.check("length-is-sum-of-segments:" + A, std::fabs(o.L - (sumStraight + sumArc)), 1e-9 * Lscale, W("getCableLength != sum of straight segments + geodesic lengths"));
         c.check("length-ge-endpoint-distance:" + A, (T - O).norm() - o.L, 1e-9 * Lscale, W("cable shorter than the distance between its end points"));
+        // two independent implementations of the same cable must agree
+        // (only if both sit on the same local solution: Newton on the path error keeps following a
+        // stationary branch that the length-minimizing CableSpan algorithm may have left)
+        if (oref.ok && branchDiff > 1e-3) { c.obs("CablePath-and-CableSpan-on-different-local-solutions"); oref.ok = false; }
+        if (oref.ok) {
+            c.check("length-vs-CableSpan:" + A, std::fabs(o.L - oref.L), 1e-6 * Lscale, [&]() { Json j = desc; j.set("what", "CablePath and CableSpan lengths differ for the same cable and configuration").set("L_CablePath", o.L).set("L_CableSpan", oref.L).set("state", st).set("q", jV(s.getQ())); return j; });
+            double vs = 0; for (int i = 0; i < s.getNU(); ++i) vs = std::max(vs, std::fabs(s.getU()[i]));
+            c.check("lengthdot-vs-CableSpan:" + A, std::fabs(o.Ldot - oref.Ldot), 1e-6 * (vs * Lscale + std::fabs(o.Ldot)), [&]() { Json j = desc; j.set("what", "CablePath and CableSpan length rates differ for the same cable and state").set("Ldot_CablePath", o.Ldot).set("Ldot_CableSpan", oref.Ldot).set("state", st).set("q", jV(s.getQ())).set("u", jV(s.getU())); return j; });
+        }
         // forces
         const double Tn = 2.9; const int nb = k.m.matter.getNumBodies();
         Vector_<SpatialVec> F(nb, SpatialVec(Vec3(0), Vec3(0)));
@@ -731,10 +848,10 @@ static void runPath(Ctx& c, long idx, Rng& r) {
             double Pw = 0, fmax = 0;
             for (int b = 0; b < nb; ++b) { const SpatialVec& V = k.m.matter.getMobilizedBody(MobilizedBodyIndex(b)).getBodyVelocity(s); Pw += ~FB[b][0] * V[0] + ~FB[b][1] * V[1]; fmax = std::max(fmax, FB[b][1].norm()); }
             c.check("spring-power-is-minus-tension-times-lengthdot:CableSpring", std::fabs(Pw + ten * o.Ldot), 1e-6 * (ten + 1e-300) * (vscale + 1e-300) * ne + 1e-12, W("power of the CableSpring's body forces != -tension * lengthDot"));
-            c.cover(std::string("CableSpring/") + (ten > 0 ? "taut" : "slack") + "/" + sc.kinds);
+            c.cover(std::string("CableSpring/") + (ten > 0 ? "taut" : "slack") + "/" + kindsActive);
         }
-        // lengthDot vs FD
-        {
+        // lengthDot vs FD (once per case: on the continuation state, or on the initial one for odd cases)
+        if (c.args.getInt("nofd", 0) == 0 && st == (idx % 2 == 0 ? nStates - 1 : 0)) {
             c.setPhase("CablePath lengthDot FD");
             const Vector qdot = s.getQDot();
             double vq = 0; for (int i = 0; i < qdot.size(); ++i) vq = std::max(vq, std::fabs(qdot[i]));
@@ -756,7 +873,7 @@ static void runPath(Ctx& c, long idx, Rng& r) {
                 }
             }
         }
-        c.cover(A + "/" + sc.kinds + "/v" + std::to_string(sc.nVia) + (st == 0 ? "/init" : "/cont"));
+        c.cover(A + "/" + kindsActive + "/v" + std::to_string(sc.nVia) + (st == 0 ? "/init" : "/cont") + (oref.ok ? "/vs-CableSpan" : ""));
         (void)backwards;
     }
 }
